@@ -339,7 +339,7 @@ class Interp:
                     disj.append(r)
             return z3.Or(*disj) if disj else False
         if isinstance(container, dict):
-            return self.contains(list(container.keys()), x)
+            return self.contains([k.key if type(k).__name__ == "SymKey" else k for k in container.keys()], x)
         if isinstance(container, Rec) and "__contains__" in container._fields:
             r = self.call(container._fields["__contains__"], [x], {})
             return self.truth(r)
@@ -467,7 +467,8 @@ class Interp:
 
     def hashable(self, k):
         if isinstance(k, (SV, DName, PartV)):
-            raise OutOfReach("symbolic key in a concrete dict")
+            from .stmts import SymKey
+            return SymKey(k)
         return k
 
     def ev_JoinedStr(self, node, env):
@@ -485,8 +486,10 @@ class Interp:
         """Concatenate str pieces (concrete strs, PartV, DName, z3 strings)."""
         if all(isinstance(p, str) for p in pieces):
             return "".join(pieces)
+        import re as _re
         if any(isinstance(p, (PartV, DName)) for p in pieces) and \
-                not all(isinstance(p, (str, PartV, DName)) for p in pieces):
+                (not all(isinstance(p, (str, PartV, DName)) for p in pieces) or
+                 any(isinstance(p, str) and not _re.fullmatch(r"[\w.]*", p) for p in pieces)):
             # a message that mixes names with other values (only ever used as text): opaque string
             return SV(self.eng.fresh("msg", z3.StringSort()))
         if any(isinstance(p, (PartV, DName)) for p in pieces):
@@ -770,6 +773,8 @@ class Interp:
             if kw.arg is None:
                 if isinstance(v, dict):
                     for k, x in v.items():
+                        if not isinstance(k, str) and not type(k).__name__ == "SymKey":
+                            raise exc("TypeError", "keywords must be strings")
                         if k in kwargs:
                             raise exc("TypeError", f"multiple values for keyword argument '{k}'")
                         kwargs[k] = x
